@@ -278,6 +278,16 @@ def fixed_cases():
     add([sa("pascal"), "::", emb("pascal", ["my"], []), "(", sa("snake"), ", ", sa("snake"), ")\n"])
     add([Item("mixed", "my-", "foo_bar", "", "snake"), " ", Item("mixed", "", "Foo-Bar", "_x", "train"), "\n"])
     add([emb("snake", ["get"], []), " ", sa("train"), " ", sa("sentence"), "; ", sa("upper_sentence"), "\n"])
+    # Title-Case phrases: the identifier extractor takes `My Foo Bar Thing` as ONE space-separated identifier, the compound
+    # matcher answers for it, and the overlap resolution then prefers the space-separated EXACT match inside it
+    # (compound_scanner.rs, the `selected_fully_contains_candidate && candidate_is_space_separated` arm — reached by no
+    # other family according to bin/covreport)
+    tw = lambda left, right: Item("embedded", left, "Foo Bar", right, "title", "Baz Qux")
+    add([tw("My ", " Thing"), " here\n"])
+    add(["see ", tw("My ", ""), "\n"])
+    add([tw("", " Thing"), " and ", sa("snake"), "\n"])
+    add([tw("Get ", " Now"), ", ", emb("snake", ["get"], ["now"]), "\n"], "i=title,sentence,lower_sentence,upper_sentence")
+    add([tw("The ", ""), "\n"], "o=title")
     return out
 
 
